@@ -1,6 +1,7 @@
 import NanoVerif.Proofs.Bundle
 import NanoVerif.Proofs.BundleCapacity
 import NanoVerif.Proofs.Ellipsoid
+import NanoVerif.Proofs.EllipsoidLoop
 import Mathlib.Algebra.Order.Field.Rat
 import Mathlib.Tactic.NormNum
 import Mathlib.Analysis.Real.Sqrt
@@ -10,12 +11,65 @@ import Mathlib.Analysis.Real.Sqrt
 
   Property theorems about `Model/Bundle.lean` and `Model/Ellipsoid.lean` (the models of `src/solver/bundle.cpp`,
   `src/solver/csearch.cpp`, `src/solver/ellipsoid.cpp`), for every linear ordered field `α` (exact arithmetic), every
-  objective `f : List α → α` and every dimension `n`. Conventions of the statements:
+  objective `f : List α → α` and every dimension `n`. The theorems about the OUTER LOOPS of RQB / FPBA1 / FPBA2
+  (`Model/BundleSolver.lean`) build on this file and are in `Proofs/BundleSolver.lean` (`solver_run_certificate`,
+  `solver_run_statement_bound`, …). Conventions of the statements:
   * convexity enters only through `SubGrad n f y gy` (the oracle returns a sub-gradient at the trial point);
   * the multipliers of the quadratic sub-problem enter only through `Simplex` (its contract);
   * `std::sqrt` is the class `Sqrt α`, axiomatised by `hsqrt : ∀ v ≥ 0, 0 ≤ sqrt v ∧ sqrt v * sqrt v = v`;
   * the definitions `LB`, `SubGrad`, `Simplex`, `Valid`, `Kept`, `Step`, `Reach` are in `Proofs/Bundle.lean`, `InE` in
-    `Proofs/Ellipsoid.lean`.
+    `Proofs/Ellipsoid.lean`, `WellH` in `Proofs/EllipsoidStep.lean`, `InvN` / `CertN` in `Proofs/EllipsoidLoop.lean`.
+
+  COVERAGE TABLE (every function of the anchored files; `modelled` = hand-written Lean definition replayed against the code,
+  `oracle` = parameter of the model with a stated contract, `outside` = not in the model):
+
+  src/solver/bundle.cpp
+    bundle_t::bundle_t                modelled  `Bundle.init`
+    moveto / append (public)          modelled  `appendFull … true / false` (+ centre update in `appendStep`)
+    solve, 1 row / 2 rows             modelled  `solve1`, `solve2` (`solveB`); simplex PROVED (6a, 6b)
+    solve, ≥ 3 rows (program::solver_t::solve, src/program/solver.cpp — owned by C04)
+                                      oracle    `Env.qp`; contract = simplex point (hypothesis `Simplex` / `EnvOK.hsolve`), MONITORED
+                                                at run time on every call of every run: |Σα − 1| ≤ 1e-9, α ≥ −1e-12, and KKT
+                                                optimality (Frank–Wolfe gap ≤ 1e-6 of the gradient's terms) whenever the QP solver
+                                                itself reported `converged` (harness sink + python oracle `fw_gap`)
+    delete_inactive                   modelled  `active`
+    delete_largest                    modelled  `reduce`, `deleteFrom`; the `std::nth_element` threshold is an oracle (`thres` /
+                                                `Env.thr`) with contract `NthElement` (6d)
+    store_aggregate/append_aggregate  modelled  `aggregate` (inside `reduce`)
+    append (private, 4 arguments)     modelled  `appendStep`, `nullError`, `shiftError`
+    econverged / sconverged           modelled  `econverged`, `sconverged`, `tol`
+    config / make                     outside   parameter registration and lookup (C19)
+  include/nano/solver/bundle.h
+    smeared_e, smeared_s, delta, proximal   modelled  `smearedE`, `smearedS`, `delta`, `proximal`
+    size, x, gx, fx, dims, capacity, alpha, S, e   modelled as the fields of `State` / `SolverSt` (`e()`'s assert is not modelled)
+    remove_if                         modelled  as the order-preserving filters `active` / `deleteFrom` (nano::remove_if: C16)
+  src/solver/csearch.cpp
+    csearch_t::search                 modelled  one pass `csearchStep`, `newTrial`; the whole loop `BundleSolver.csearchLoop`, `csearch`
+    csearch_t::csearch_t, config, make, enum_string   outside (buffers, parameters: C19)
+  src/solver/proximity.cpp
+    make_miu0, proximity_t::proximity_t   modelled  `makeMiu0`, `miuInit`, `clamp`
+    make_miu                          modelled  `makeMiu`
+    update (5 arguments, FPBA)        modelled  `proxUpdate1`
+    update (7 arguments, RQB)         modelled  `proxUpdate2`, `nuComb`
+    miu                               modelled  the field `SolverSt.miu`; its `assert(m_miu > 0)` is PROVED (`proxUpdate*_pos`)
+    config / make                     outside   (C19)
+  src/solver/nesterov.cpp, include/nano/solver/nesterov.h
+    reset, lambda, update(), update(z), make_alpha_beta (1 and 2)   modelled  `Seq`, `Seq.reset`, `lambdaNext`, `Seq.update`, `extrap`
+  src/solver/rqb.cpp
+    solver_rqb_t::do_minimize         modelled  `BundleSolver.start`, `pass .rqb`, `seriousR`, `run`
+    constructor, clone                outside
+  src/solver/fpba.cpp
+    base_solver_fpba_t::do_minimize (+ lambda apply_nesterov_sequence)   modelled  `pass .fpba1/.fpba2`, `seriousF`, `run`
+    constructor, clone                outside
+  src/solver/ellipsoid.cpp
+    solver_ellipsoid_t::do_minimize   modelled  n = 1: `start1d`, `iter1d`, `run1d`; n ≥ 2: `startND`, `iterND`, `runND`,
+                                                `stepND` (`alphaCut`, `stepX`, `stepH`), `initH`, `earlyStop`, `converged`, `fuelOf`
+    constructor, clone                outside
+  src/solver.cpp  solver_t::done      modelled  `Ellipsoid.doneE` (C01/C02 use the regenerated `Gen.DoneLogic`)
+  src/solver/state.cpp  update_if_better / update   modelled  `better`, `betterF`, `BundleSolver.upBetter` (value and point of the
+                                                best state; histories: C02)
+  the objective `function_t::vgrad`   oracle    `f`, `g'` with contract `SubGrad` (monitored against the known `f` by the python oracle)
+  `std::isfinite`, `state.valid()`    oracle    arbitrary predicates in the ellipsoid theorems; `fin ≡ true` in `EnvOK`
 -/
 set_option linter.unusedSectionVars false
 set_option linter.unusedVariables false
@@ -378,23 +432,86 @@ theorem ellipsoid_1d_run_certificate [Sqrt α]
     s.best - f z < 2 * (eps * eps) ∨ s.best - f z < 2 * epsM :=
   run1d_spec hsqrt f g' z eps epsM hsub hmin hsharp hepsM fuel _ s ⟨hz, hR, rfl, rfl, le_refl _⟩ hrun
 
-/-! ### 16. n-D -/
+/-! ### 16. n-D: the Löwner–John step and the whole loop -/
 
-/-
-  FULL STATEMENT (not proved): for `dim ≥ 2`, a convex `f` with sub-gradient oracle, a minimiser `z` with
-  `InE dim x0 (initH dim R) z`, every iterate `(x_k, H_k)` of `stepND` satisfies `InE dim x_k H_k z`, hence when the loop
-  reports `converged` (`converged eps (quad H_k g_k) = true`) the best value satisfies `best − f z < eps`.
--/
-/-- PARTIAL: the certificate of the n-D loop at the reporting iterate, ASSUMING containment `InE n x H z` there (it is
-    11a restated). Missing step: `InE n x H z ∧ deep cut (deep_cut_valid: g·(z − x) ≤ −α√(gHg)) ⇒ InE n x' H' z` for
-    `(x', H') = stepND n x g H (f x) best` (the Löwner–John minimum-volume ellipsoid of a half-ellipsoid contains the
-    half-ellipsoid); that containment is monitored on traces instead (hook `ellipsoid.iter`). -/
-theorem ellipsoid_nd_run_certificate_partial [Sqrt α]
+/-- 16a. the starting ball (ellipsoid.cpp:36-37, `H = R² I` for `n ≥ 2`) contains every `z` with `‖z − x0‖₂ ≤ R`, and is
+    a symmetric `n × n` matrix -/
+theorem ellipsoid_init_contains (n : Nat) (hn : n ≠ 1) (R : α) (x0 z : List α) (hx : x0.length = n) (hz : z.length = n)
+    (hR : dot (vsub z x0) (vsub z x0) ≤ R * R) : InE n x0 (initH n R) z ∧ WellH n (initH n R) :=
+  ⟨initH_contains n hn R x0 z hx hz hR, initH_wellH n R⟩
+
+/-- 16b. THE LÖWNER–JOHN STEP as coded (ellipsoid.cpp:64-68): for `n ≥ 2`, `H` symmetric with `gᵀHg > 0` and a cut
+    parameter `−1/n ≤ α ≤ 1`, every point `z` of the half-ellipsoid `{z ∈ E(x, H) | g·(z − x) ≤ −α √(gᵀHg)}` lies in the
+    updated ellipsoid `E(x⁺, H⁺)`, `x⁺ = x − (1 + nα)/(n + 1) · Hg/√(gᵀHg)`,
+    `H⁺ = n²/(n² − 1) (1 − α²) (H − 2(1 + nα)/((n + 1)(1 + α)) · Hg gᵀH/(gᵀHg))`; `H⁺` is again symmetric `n × n`. Membership is
+    in support-function form (`InE`: `(w·(z − x))² ≤ wᵀHw` for all `w`), which needs no inverse of `H`. -/
+theorem ellipsoid_deep_cut_contains [Sqrt α]
     (hsqrt : ∀ v : α, 0 ≤ v → 0 ≤ Sqrt.sqrt v ∧ Sqrt.sqrt v * Sqrt.sqrt v = v)
-    (n : Nat) (f : List α → α) (x g : List α) (H : List (List α)) (z : List α) (eps best : α) (hz : z.length = n)
-    (hsub : SubGrad n f x g) (hcontain : InE n x H z) (hc : converged eps (quad H g) = true) (hbest : best ≤ f x) :
-    best - f z < eps :=
-  ellipsoid_converged_certificate hsqrt n f x g H z eps best hz hsub hcontain hc hbest
+    (n : Nat) (hn : 2 ≤ n) (x g z : List α) (H : List (List α)) (al : α) (hx : x.length = n) (hg : g.length = n)
+    (hz : z.length = n) (hH : WellH n H) (hpos : 0 < quad H g) (hin : InE n x H z) (hlo : -1 ≤ (n : α) * al)
+    (hhi : al ≤ 1) (hcut : dot g (vsub z x) ≤ -al * Sqrt.sqrt (quad H g)) :
+    InE n (stepX (n : α) x (mv H g) al (quad H g)) (stepH (n : α) H (mv H g) (vm n g H) al (quad H g)) z ∧
+      WellH n (stepH (n : α) H (mv H g) (vm n g H) al (quad H g)) :=
+  ⟨stepND_contains hsqrt n hn x g z H al hx hg hz hH hpos hin hlo hhi hcut, stepH_wellH n (n : α) al H hH g hg⟩
+
+/-- 16c. THE WHOLE n-D LOOP (ellipsoid.cpp:28-82, `n ≥ 2`): for a convex `f` whose oracle returns sub-gradients, a
+    minimiser `z` with `‖z − x0‖₂ ≤ R` (the only containment that is assumed: the starting ball), every evaluation budget
+    `fuel`, every `std::isfinite` / `state.valid()` behaviour: when the run stops with `solver_status::converged`, the
+    returned point `bx` (value `best`) satisfies `f(bx) − f(z) < ε` (test `sqrt(gHg) < ε`) or `(f(bx) − f(z))² < epsM` (early
+    exit `gHg < epsM`). No containment hypothesis on the iterates: it is the loop invariant, by 16a/16b and the deep cut
+    `α = (f(x) − best)/√(gᵀHg) ∈ [0, 1]`. -/
+theorem ellipsoid_nd_run_certificate [Sqrt α]
+    (hsqrt : ∀ v : α, 0 ≤ v → 0 ≤ Sqrt.sqrt v ∧ Sqrt.sqrt v * Sqrt.sqrt v = v)
+    (n : Nat) (hn : 2 ≤ n) (f : List α → α) (g' : List α → List α) (z x0 : List α) (R eps epsM : α)
+    (fin : α → Bool) (valid : SN α → Bool)
+    (hsub : ∀ x : List α, x.length = n → SubGrad n f x (g' x)) (hz : z.length = n) (hx0 : x0.length = n)
+    (hmin : ∀ w : List α, w.length = n → f z ≤ f w) (hepsM : 0 < epsM)
+    (hR : dot (vsub z x0) (vsub z x0) ≤ R * R) (fuel : Nat) (s : SN α)
+    (hrun : runND n eps epsM fin valid (fun x => (f x, g' x)) fuel (startND n R x0 (fun x => (f x, g' x))) =
+      (EStatus.converged, s)) :
+    s.best = f s.bx ∧ (f s.bx - f z < eps ∨ (f s.bx - f z) * (f s.bx - f z) < epsM) := by
+  have h := runND_spec hsqrt n hn f g' z eps epsM fin valid hsub hz hmin hepsM fuel _ s
+    ⟨hx0, initH_wellH n R, initH_contains n (by omega) R x0 z hx0 hz hR, rfl, rfl, le_refl _, hmin x0 hx0, rfl, hx0⟩
+    hrun
+  obtain ⟨h1, h2⟩ := h
+  rw [h1] at h2
+  exact ⟨h1, h2⟩
+
+/-- 16d. the bound of the statement: with `epsM ≤ (10 ε)²` (binary64: `epsM = 2.2e-16`, `ε ≥ 1e-8`) a run that reports
+    `converged` returns a point with `f(bx) − f(z) < 10 ε` -/
+theorem ellipsoid_nd_converged_10eps [Sqrt α]
+    (hsqrt : ∀ v : α, 0 ≤ v → 0 ≤ Sqrt.sqrt v ∧ Sqrt.sqrt v * Sqrt.sqrt v = v)
+    (n : Nat) (hn : 2 ≤ n) (f : List α → α) (g' : List α → List α) (z x0 : List α) (R eps epsM : α)
+    (fin : α → Bool) (valid : SN α → Bool)
+    (hsub : ∀ x : List α, x.length = n → SubGrad n f x (g' x)) (hz : z.length = n) (hx0 : x0.length = n)
+    (hmin : ∀ w : List α, w.length = n → f z ≤ f w) (hepsM : 0 < epsM) (heps : 0 < eps)
+    (hM : epsM ≤ (10 * eps) * (10 * eps))
+    (hR : dot (vsub z x0) (vsub z x0) ≤ R * R) (fuel : Nat) (s : SN α)
+    (hrun : runND n eps epsM fin valid (fun x => (f x, g' x)) fuel (startND n R x0 (fun x => (f x, g' x))) =
+      (EStatus.converged, s)) :
+    f s.bx - f z < 10 * eps := by
+  obtain ⟨-, h | h⟩ := ellipsoid_nd_run_certificate hsqrt n hn f g' z x0 R eps epsM fin valid hsub hz hx0 hmin hepsM hR
+    fuel s hrun
+  · linarith
+  · by_contra hc
+    have hc : 10 * eps ≤ f s.bx - f z := not_lt.mp hc
+    have := mul_self_le_mul_self (by linarith : (0 : α) ≤ 10 * eps) hc
+    linarith
+
+/-- 16e. the status logic of the loop: `converged` is reported exactly by the early exit (`gHg < epsM`) or by a pass whose
+    `sqrt(gHg) < ε` held at the point that was left (`converged` wins over a non-finite value); `failed` only by a pass with
+    a non-finite value or an invalid state; a pass that goes on had a finite value -/
+theorem ellipsoid_done_logic (iterOk conv valid : Bool) :
+    (doneE iterOk conv valid = some EStatus.converged ↔ conv = true) ∧
+      (doneE iterOk conv valid = some EStatus.failed ↔ (conv = false ∧ (iterOk = false ∨ valid = false))) ∧
+      (doneE iterOk conv valid = none ↔ (conv = false ∧ iterOk = true ∧ valid = true)) ∧
+      doneE iterOk conv valid ≠ some EStatus.maxIters := by
+  cases iterOk <;> cases conv <;> cases valid <;> simp [doneE]
+
+/-- 16f. a run never reports anything but its own last decision: with no budget the status is `max_iters` and the state
+    is the starting state -/
+theorem ellipsoid_no_budget (n : Nat) (eps epsM : α) [Sqrt α] (fin : α → Bool) (valid : SN α → Bool)
+    (oracle : List α → α × List α) (s : SN α) : runND n eps epsM fin valid oracle 0 s = (EStatus.maxIters, s) := rfl
 
 end NanoVerif.Ellipsoid
 
@@ -579,6 +696,30 @@ example : SubGrad 1 exFR [0] [0] := by
   | [a], _ =>
     simp only [exFR, dot, vsub, List.headD_cons]
     norm_num
+
+/-! the hypotheses of the Löwner–John step and of the n-D run certificate are satisfiable (n = 2, over ℝ) -/
+example : (quad (initH 2 (2 : ℝ)) [1, 0] : ℝ) = 4 := by
+  norm_num [quad, mv, dot, initH, List.range_succ]
+
+/-- `x = 0`, `H = 4 I`, `g = e₁`, central cut `α = 0`, `z = −e₁` (on the kept side) -/
+example : InE 2 (stepX ((2 : ℕ) : ℝ) [0, 0] (mv (initH 2 2) [1, 0]) 0 (quad (initH 2 2) [1, 0]))
+    (stepH ((2 : ℕ) : ℝ) (initH 2 2) (mv (initH 2 2) [1, 0]) (vm 2 [1, 0] (initH 2 2)) 0 (quad (initH 2 2) [1, 0]))
+    [-1, 0] :=
+  (ellipsoid_deep_cut_contains hsqrtReal 2 (le_refl _) [0, 0] [1, 0] [-1, 0] (initH 2 2) 0 rfl rfl rfl
+    (initH_wellH 2 2) (by norm_num [quad, mv, dot, initH, List.range_succ])
+    (initH_contains 2 (by decide) 2 [0, 0] [-1, 0] rfl rfl (by norm_num [dot, vsub])) (by norm_num) (by norm_num)
+    (by norm_num [dot, vsub])).1
+
+/-- the constant function: every hypothesis of `ellipsoid_nd_run_certificate` holds, the run stops at once by the early exit -/
+example : runND 2 (1 / 100 : ℝ) (1 / 1000) (fun _ => true) (fun _ => true) (fun x => ((0 : ℝ), [0, 0])) 1
+    (startND 2 1 [0, 0] (fun x => ((0 : ℝ), [0, 0]))) = (EStatus.converged, ⟨[0, 0], initH 2 1, 0, [0, 0], 0, [0, 0]⟩) := by
+  norm_num [runND, iterND, startND, doneE, quad, mv, dot, initH, List.range_succ]
+example : ∀ x : List ℝ, x.length = 2 → SubGrad 2 (fun _ => (0 : ℝ)) x ((fun _ => [0, 0]) x) := by
+  intro x hx
+  refine ⟨rfl, ?_⟩
+  intro z hz
+  match x, hx, z, hz with
+  | [c, d], _, [a, b], _ => simp [dot, vsub]
 end real
 
 end NanoVerif.C03Examples
